@@ -173,6 +173,11 @@ def _fix_atomic_specifiers_once(
         # its location when we replace the wrapper Typename.
         node.type.coord = parent.coord
     cast(Any, grandparent).type = node.type
-    if "_Atomic" not in node.type.quals:
-        node.type.quals.append("_Atomic")
+    # Array and function declarators carry no qualifiers of their own; a
+    # qualifier on such a type applies to the element / return type.
+    qualified: Any = node.type
+    while not hasattr(qualified, "quals") and hasattr(qualified, "type"):
+        qualified = qualified.type
+    if hasattr(qualified, "quals") and "_Atomic" not in qualified.quals:
+        qualified.quals.append("_Atomic")
     return decl, True
